@@ -55,6 +55,41 @@ pub fn fnv_u64(mut h: u64, v: u64) -> u64 {
 extern "C" {
     fn mmap(addr: *mut u8, len: usize, prot: i32, flags: i32, fd: i32, off: i64) -> *mut u8;
     fn mprotect(addr: *mut u8, len: usize, prot: i32) -> i32;
+    fn munmap(addr: *mut u8, len: usize) -> i32;
+}
+
+/// A REALLY mapped region of `len` bytes (anonymous, zero-filled on demand, not reserved) that ends at a PROT_NONE page:
+/// used for declared sizes up to 4 GiB of which only the first and the last bytes are ever written.
+pub struct BigRegion {
+    base: *mut u8,
+    map_len: usize,
+    pub start: *mut u8,
+}
+impl BigRegion {
+    pub fn new(len: usize) -> Option<Self> {
+        const MAP_NORESERVE: i32 = 0x4000;
+        let pages = (len.max(8) + PAGE - 1) / PAGE;
+        let map_len = (pages + 1) * PAGE;
+        let base = unsafe { mmap(std::ptr::null_mut(), map_len, PROT_RW, MAP_PRIVATE | MAP_ANON | MAP_NORESERVE, -1, 0) };
+        if base.is_null() || base as isize == -1 {
+            return None;
+        }
+        unsafe {
+            if mprotect(base.add(pages * PAGE), PAGE, PROT_NONE) != 0 {
+                munmap(base, map_len);
+                return None;
+            }
+        }
+        // the region ends as close to the guard page as 8-alignment of its start allows
+        let r8 = (len.max(8) + 7) / 8 * 8;
+        let start = unsafe { base.add(pages * PAGE - r8) };
+        Some(Self { base, map_len, start })
+    }
+}
+impl Drop for BigRegion {
+    fn drop(&mut self) {
+        unsafe { munmap(self.base, self.map_len) };
+    }
 }
 const PROT_NONE: i32 = 0;
 const PROT_RW: i32 = 3;
